@@ -38,6 +38,8 @@ def main():
                     t += rnd.choice([1, 1, 2, 5])
                     p = path_for(c, t)
                     sz = rnd.choice([100, 300, 700])
+                    # the ringbuffer removes a subdirectory it has emptied: a recorder would recreate it for the next file
+                    os.makedirs(os.path.dirname(p), exist_ok=True)
                     open(p, "wb").write(b"x" * sz)
                     known[p] = sz
                     ev = ("created", p)
@@ -65,6 +67,7 @@ def main():
                 else:
                     p = os.path.join(root, c, "2017-01-01T00-00-00", "tmp.rf@%d.000.h5" % (1483228800 + t + 1))
                     ev = ("created-tmp", p)
+                    os.makedirs(os.path.dirname(p), exist_ok=True)
                     open(p, "wb").write(b"y" * 50)
                     h.dispatch(FileCreatedEvent(p))
                 hist.append(ev)
